@@ -104,8 +104,15 @@ def eval_chain_all(stmts, facts):
     return out
 
 
+
+GUARDED = [
+    ('ACCDataTrans', 'validate'),
+]
+
 def check(idx, run):
     run.explanation = __doc__
+    from sa.guards import check_guards
+    check_guards(idx, run, "C13.R5", GUARDED)
     dcls0 = idx.get_class(
         "psyclone.psyir.nodes.acc_directives.ACCDataDirective")
     res = idx.find_method(dcls0, "create_data_movement_deep_copy_refs")
